@@ -564,8 +564,8 @@ static Boolean DecodeBitAdr(Boolean MayShort, tAdrResult* pResult) {
     if (DecodeReg(&RegPart, &pResult->Mode, True, &RegSize) == eIsReg) {
         switch (pResult->Mode) {
         case REG_SB:
-            DecodeDisp(&DispPart, UInt13, UInt16, &DispAcc, &OK);
-            if (OK) {
+            DecodeDisp(&DispPart, UInt16, UInt13, &DispAcc, &OK);
+            if (OK && (DispAcc < 0x10000)) {
                 if ((MayShort) && (DispAcc <= 0x7ff)) {
                     pResult->Mode    = 16 + (DispAcc & 7);
                     pResult->Vals[0] = DispAcc >> 3;
@@ -586,8 +586,8 @@ static Boolean DecodeBitAdr(Boolean MayShort, tAdrResult* pResult) {
                                           offset */
             return False;
         case REG_FB:
-            DecodeDisp(&DispPart, SInt5, SInt8, &DispAcc, &OK);
-            if (OK) {
+            DecodeDisp(&DispPart, SInt8, SInt5, &DispAcc, &OK);
+            if (OK && (DispAcc >= -128) && (DispAcc <= 127)) {
                 pResult->Mode    = 11;
                 pResult->Vals[0] = DispAcc & 0xff;
                 pResult->Cnt     = 1;
@@ -602,7 +602,7 @@ static Boolean DecodeBitAdr(Boolean MayShort, tAdrResult* pResult) {
             DecodeDisp(
                     &DispPart, UInt16, UInt16, &DispAcc,
                     &OK); /* RMS 03: The offset is a full 16 bits */
-            if (OK) {
+            if (OK && (DispAcc < 0x10000)) {
                 if (DispAcc == 0) {
                     pResult->Mode += 6;
                 } else if ((DispAcc > 0) && (DispAcc < 256)) {
